@@ -19,6 +19,7 @@ import SpecKitV.Gen.Sched
 import SpecKitV.Gen.Utils
 import SpecKitV.Gen.Noise
 import SpecKitV.Gen.Dsp
+import SpecKitV.Gen.Analysis
 
 namespace Drv
 
@@ -483,6 +484,14 @@ def opSingleBin : M String := do
   let D := Model.singleBinStarts (α := Float) N L olap
   return " ".intercalate (D.map toString)
 
+/-- the single-bin segmentation as TRANSLATED from SpectrumAnalyzer.compute_single_bin each run: `genseg N L olap` → `navg | starts…` -/
+def opGenSeg : M String := do
+  let N ← nat
+  let L ← nat
+  let olap ← flt
+  let g := Gen.single_bin_segmentation (α := Float) (N : Int) (L : Int) olap
+  return s!"{g.1} | " ++ " ".intercalate ((List.range g.2.n).map (fun i => toString (g.2.get i)))
+
 def dispatch : M String := do
   let op ← tok
   match op with
@@ -494,6 +503,7 @@ def dispatch : M String := do
   | "attr" => opAttr
   | "taps" => opTaps
   | "gentaps" => opGenTaps
+  | "genseg" => opGenSeg
   | "tshift" => opTshift
   | "cascade" => opCascade
   | "gen" => opGen
